@@ -8,6 +8,26 @@ from .ops import Exp, Op, Out, capture, register
 # ---------------------------------------------------------------------------
 # CFG
 
+import collections.abc as _cabc
+
+
+class OSet(_cabc.Set):
+    """Insertion-ordered immutable set: edge tuples hash by object address, so
+    a built-in set of them would iterate in an unrepeatable order and decide
+    the insertion order of the graph (and with it what pop() returns)."""
+
+    def __init__(self, it=()):
+        self._d = dict.fromkeys(it)
+
+    def __contains__(self, x):
+        return x in self._d
+
+    def __iter__(self):
+        return iter(self._d)
+
+    def __len__(self):
+        return len(self._d)
+
 
 def mk_edge(w, e):
     g = w.g
@@ -85,18 +105,18 @@ class CfgOp(Op):
         elif m == "update":
             es = [mk_edge(w, e) for e in a[0]]
             style = op.get("style", "list")
-            arg = iter(es) if style == "iter" else (set(es) if style == "set" else es)
+            arg = iter(es) if style == "iter" else (OSet(es) if style == "set" else es)
             fn = lambda: C.update(arg)
         elif m in ("ior", "isub", "iand", "ixor"):
-            es = set(mk_edge(w, e) for e in a[0])
+            es = OSet(mk_edge(w, e) for e in a[0])
             name = "__%s__" % m
             fn = lambda: getattr(C, name)(es)
         elif m in ("or", "and", "sub", "xor", "eq", "le"):
-            es = set(mk_edge(w, e) for e in a[0])
+            es = OSet(mk_edge(w, e) for e in a[0])
             f2 = {"or": operator.or_, "and": operator.and_, "sub": operator.sub, "xor": operator.xor, "eq": operator.eq, "le": operator.le}[m]
             fn = (lambda: f2(es, C)) if op.get("reflected") else (lambda: f2(C, es))
         elif m == "isdisjoint":
-            es = set(mk_edge(w, e) for e in a[0])
+            es = OSet(mk_edge(w, e) for e in a[0])
             fn = lambda: C.isdisjoint(es)
         elif m == "contains":
             e = mk_edge(w, a[0])
